@@ -515,6 +515,9 @@ CHECKS["C05"]["text"] += (" Family path_style: providers whose object ids are pa
 CHECKS["C06"]["text"] += (" Family restarts_fallback_rename: synchronised objects renamed (fresh name, other folder, letter case only) while the "
                           "engine is down and the cursor lost; with stable ids the fallback walk must carry the rename to the other side.")
 
+CHECKS["C08"]["text"] += (" Engine stream: the real engine over a sqlite file (clean one-sided and restart histories); after every intake and "
+                          "sync step every live entry, dirty or not, must equal its stored row (strict storage oracle).")
+
 ALL = ["C%02d" % i for i in range(1, 21)]
 
 
